@@ -172,7 +172,11 @@ def finish(cr, tier, seed, t0):
                 break
     unlisted = 0
     printed = set()
-    rdir = os.path.join(VERIF, "replays", cr.prop)
+    out_base = VERIF
+    if os.environ.get("VERIF_REPO", "/repo") != "/repo":
+        # a run against a scratch copy (mutant trials) must not overwrite the evidence / replays of /repo
+        out_base = os.environ.get("VERIF_SCRATCH_OUT", "/tmp/lsfverif-scratch-out")
+    rdir = os.path.join(out_base, "replays", cr.prop)
     os.makedirs(rdir, exist_ok=True)
     for sig in sorted(cr.findings):
         f = cr.findings[sig]
@@ -201,7 +205,7 @@ def finish(cr, tier, seed, t0):
         "violations": unlisted,
     }
     ev["coverage"]["known_findings_seen"] = sorted(s for s in cr.findings if s in open_sigs)
-    edir = os.path.join(VERIF, "evidence")
+    edir = os.path.join(out_base, "evidence")
     os.makedirs(edir, exist_ok=True)
     with open(os.path.join(edir, cr.prop + ".json"), "w") as fp:
         json.dump(ev, fp, indent=1, default=_jd)
